@@ -87,6 +87,7 @@ def declare_handles(w, kind='apply'):
         'releases': IntS,                   # LaxBoundedSemaphore.release() calls
         'acks_sent': IntS,
         'cb_raised': BoolS,                 # some user callback has raised
+        'next_job': IntS,                   # next value of job_counter
     })
     J = w.classes['Job']
     J.fields.pop('_event_flag', None)
@@ -227,4 +228,67 @@ def discard_contract(prop):
 
 
 def apply_handle_contracts(prop):
-    return [set_contract(prop), ack_contract(prop), set_terminated_contract(prop), discard_contract(prop)]
+    return [set_contract(prop), ack_contract(prop), set_terminated_contract(prop), discard_contract(prop),
+            init_contract(prop)]
+
+
+# ---- construction ------------------------------------------------------------
+
+def ext_next_job(ex, args, kw):
+    """next(job_counter): itertools.count never repeats -- a fresh id, larger
+    than every id handed out before (ghost g.next_job)"""
+    from pyvc import builtins_impl
+    from pyvc.core import VIter
+    if args and isinstance(args[0], (VIter, PyList)):
+        return builtins_impl.b_next(ex, args, kw)
+    n = gget(ex, 'next_job')
+    gset(ex, 'next_job', SV(IntS, n.e + 1))
+    return n
+
+
+def ext_event_new(ex, args, kw):
+    e = SRef(ref('Event'), ex.path.new_id())
+    ex.path.write_field(e, 'flag', mk_bool(False))
+    return e
+
+
+def ext_lock_new(ex, args, kw):
+    return SV(ValS, z3.Const(fresh_name('lock'), Val))
+
+
+def ext_count_new(ex, args, kw):
+    return SV(ValS, z3.Const('job_counter', Val))
+
+
+INIT_PARAMS = {
+    'self': ref('Job'), 'cache': dict_of(IntS, ref('Job')), 'callback': opt(ValS),
+    'accept_callback': opt(ValS), 'timeout_callback': opt(ValS), 'error_callback': opt(ValS),
+    'soft_timeout': opt(RealS), 'timeout': opt(RealS), 'lost_worker_timeout': RealS,
+    'on_timeout_set': opt(ValS), 'on_timeout_cancel': opt(ValS), 'callbacks_propagate': ValS,
+    'send_ack': opt(ValS), 'correlation_id': ValS,
+}
+
+
+def init_contract(prop):
+    """ApplyResult.__init__: every field the handlers rely on is initialised,
+    the handle is filed under a fresh id"""
+    return Contract(
+        'pool.ApplyResult.__init__', prop=prop, params=INIT_PARAMS,
+        externals={'builtins.next': ext_next_job, 'threading.Event': ext_event_new,
+                   'threading.Lock': ext_lock_new, 'itertools.count': ext_count_new},
+        requires={'fresh_ids': 'not has(cache, g.next_job)', 'cache': 'allocated(cache)'},
+        modifies=['self.*', 'cache.has', 'cache.val', 'cache.size', 'g.next_job', 'Event.flag'],
+        ensures={
+            'fresh_id': 'self._job == old(g.next_job) and g.next_job == old(g.next_job) + 1',
+            'filed_under_own_id': 'has(cache, self._job) and get(cache, self._job) == self and self._cache == cache',
+            'other_entries_kept': 'only_key_changed(cache, self._job)',
+            'unresolved_unaccepted': 'not self._event.flag and fresh(self._event) and not self._accepted and not self._cancelled '
+                                     'and self._worker_pid is None and self._time_accepted is None and self._terminated is None',
+            'limits_stored': 'self._timeout == timeout and self._soft_timeout == soft_timeout and '
+                             'self._lost_worker_timeout == lost_worker_timeout',
+            'callbacks_stored': 'self._callback == callback and self._error_callback == error_callback and '
+                                'self._accept_callback == accept_callback and self._timeout_callback == timeout_callback and '
+                                'self._on_timeout_set == on_timeout_set and self._on_timeout_cancel == on_timeout_cancel '
+                                'and self._send_ack == send_ack',
+        },
+    )
